@@ -354,10 +354,15 @@ fn one(m: &Machine, seed: u64, i: usize, b: &Value) -> Value {
                     json!({"cmd": ci, "kind": kind_of(&w), "tampers": tampered, "result": res, "effects": effects,
                            "changed": before != after, "id": w.id.to_string()})
                 };
+                // the exact wire form delivered is stored now and was not before (a duplicate of a
+                // command B already holds is skipped without being stored again)
+                let exact = format!("{}|{:?}|{:?}|{:?}|{}", w.id, w.priority, w.parent, w.policy, hex(&w.data));
+                let has = |v: &Value| v.get("stored").and_then(|s| s.as_array()).map(|s| s.iter().any(|x| x.as_str() == Some(exact.as_str()))).unwrap_or(false);
+                let newly_stored = has(&after) && !has(&before);
                 let forged_accepted = res.is_ok() && (before != after || !effects.is_empty());
                 match expect {
                     "rejected" => {
-                        if res.is_ok() && stored_after {
+                        if res.is_ok() && newly_stored {
                             return fail(i, si, &format!("C35:forged-accepted:{}", tampered.join("+")),
                                 "a command whose signed wire fields were modified in transit was accepted and stored", obs());
                         }
